@@ -360,6 +360,12 @@ namespace rkcommon {
           ftell(file);
 #endif
       fseek(file, 0, SEEK_SET);
+      if (numBytes < 0) {
+        // not a seekable file (pipe, terminal, ...): its size is unknown
+        fclose(file);
+        throw std::runtime_error(
+            "ospray::XML error: could not determine size of file '" + fn + "'");
+      }
       std::vector<char> mem(numBytes + 1, 0);
       try {
         auto rc = fread(mem.data(), 1, numBytes, file);
